@@ -259,7 +259,7 @@ def run(ctx: Ctx):
         if i % 4 == 0:
             jobs.append(("nodes", {"weighted": True, "wseed": ctx.rng.randrange(1 << 30), "loader": ctx.rng.random() < 0.6, "seed": ctx.rng.randrange(1 << 30)}))
         else:
-            pipe = nc.gen_pipe(ctx.rng, ctx.rng.randrange(0, 4), allow_err=False, allow_threads=True)
+            pipe = nc.gen_pipe(ctx.rng, ctx.rng.randrange(0, 4), allow_err=False)
             jobs.append(("nodes", {"pipe": pipe, "loader": ctx.rng.random() < 0.6, "seed": ctx.rng.randrange(1 << 30)}))
     for j in jobs[:2]:
         ctx.sample(j)
